@@ -411,6 +411,23 @@ func body(w *runner.W) {
 		p4.Done()
 	}
 
+	// ---------------- P5: unusual but legal names ----------------
+	// paths that differ only by case, prefixes of one another, spaces, non-ASCII; contents
+	// swapped between look-alike paths, renamed by case only
+	p5 := runner.NewSub(w, "P5-unusual-names", run)
+	if p5.Active() {
+		namesA := wh.Build{wh.F("include/xt_MARK.h", "A.=upper"), wh.F("include/xt_mark.h", "B/100"), wh.F("Include/xt_mark.h", "=third"),
+			wh.F("a", "=1"), wh.F("a.b", "=2"), wh.F("a b", "=3"), wh.F("ab", "C/65535"), wh.F("\u00e9t\u00e9/na\u00efve", "D"), wh.F("d/.keep", "")}
+		namesB := wh.Build{wh.F("include/xt_MARK.h", "B/100"), wh.F("include/xt_mark.h", "A.=upper"), wh.F("Include/xt_MARK.h", "=third"),
+			wh.F("a", "=2"), wh.F("a.b", "=1"), wh.F("a b", "D"), wh.F("Ab", "C/65535"), wh.F("\u00e9t\u00e9/naive", "=3"), wh.F("d/.Keep", "")}
+		for _, pr := range [][2]wh.Build{{namesA, namesB}, {namesB, namesA}, {namesA, namesA}} {
+			for _, p := range []string{"plain", "rediff-0", "rediff-2"} {
+				p5.Do(Case{Fam: "P5", Old: pr[0], New: pr[1], Patch: p})
+			}
+		}
+		p5.Done()
+	}
+
 	// ---------------- P3: block level slice, plain + optimized ----------------
 	p3 := runner.NewSub(w, "P3-blocks", run, runner.Journal())
 	if p3.Active() {
